@@ -61,14 +61,9 @@ fn case_json(case: &Case) -> Value {
     serde_json::to_value(case).unwrap()
 }
 
-/// Run one check on the prepared project; `Err` = panic message.
-fn run_check(run: fn(&AnalysisResults, &Value) -> (Vec<props::ccl::utils::log::LogMessage>, Vec<CweWarning>), project: &Project, config: &Value) -> Result<Vec<CweWarning>, String> {
-    catch(|| {
-        let cfg = get_program_cfg(&project.program);
-        let binary: Vec<u8> = Vec::new();
-        let results = AnalysisResults::new(&binary, &cfg, project);
-        run(&results, config).1
-    })
+/// Run one check on the prepared analysis results; `Err` = panic message.
+fn run_check(run: fn(&AnalysisResults, &Value) -> (Vec<props::ccl::utils::log::LogMessage>, Vec<CweWarning>), results: &AnalysisResults, config: &Value) -> Result<Vec<CweWarning>, String> {
+    catch(|| run(results, config).1)
 }
 
 /// Identifiers under which a warning may name the call in block `b` of `f` returning to `ret`.
@@ -101,8 +96,8 @@ fn assign(cand: &[Vec<usize>], w: usize, used: &mut Vec<bool>, must: &[bool]) ->
     false
 }
 
-fn judge_toctou(ctx: &Ctx, case: &Case, flow: &Flow, rendered: &str, pairs: &[(&str, &str)], got: Result<Vec<CweWarning>, String>) -> (usize, usize) {
-    let detail = |extra: Value| json!({"check": "CWE367", "pairs": pairs, "program_seen_by_check": rendered, "info": extra});
+fn judge_toctou(ctx: &Ctx, case: &Case, flow: &Flow, project: &Project, pairs: &[(&str, &str)], got: Result<Vec<CweWarning>, String>) -> (usize, usize) {
+    let detail = |extra: Value| json!({"check": "CWE367", "pairs": pairs, "program_seen_by_check": render(project), "info": extra});
     let warnings = match got {
         Err(p) => {
             ctx.violation(format!("cwe367 panic {}", panic_site(&p)), case_json(case), detail(json!({"panic": p})));
@@ -168,8 +163,8 @@ fn judge_toctou(ctx: &Ctx, case: &Case, flow: &Flow, rendered: &str, pairs: &[(&
     (warnings.len(), demanded)
 }
 
-fn judge_chroot(ctx: &Ctx, case: &Case, flow: &Flow, rendered: &str, privs: &[&str], got: Result<Vec<CweWarning>, String>) -> (usize, usize) {
-    let detail = |extra: Value| json!({"check": "CWE243", "priviledge_dropping_functions": privs, "chdir_imported": case.chdir_imported, "program_seen_by_check": rendered, "info": extra});
+fn judge_chroot(ctx: &Ctx, case: &Case, flow: &Flow, project: &Project, privs: &[&str], got: Result<Vec<CweWarning>, String>) -> (usize, usize) {
+    let detail = |extra: Value| json!({"check": "CWE243", "priviledge_dropping_functions": privs, "chdir_imported": case.chdir_imported, "program_seen_by_check": render(project), "info": extra});
     let imported_privs: Vec<Callee> = privs.iter().filter_map(|p| Callee::from_name(p)).collect();
     let exp = chroot_expectation(flow, &imported_privs);
     let demanded = exp.iter().filter(|e| e.demand == Demand::Warn).count();
@@ -203,8 +198,10 @@ fn judge_chroot(ctx: &Ctx, case: &Case, flow: &Flow, rendered: &str, privs: &[&s
         match (e.demand, n) {
             (Demand::Warn, 0) => ctx.violation("cwe243 missing-warning", case_json(case), detail(info())),
             (Demand::NoWarn, 1) => {
-                // classify: is the only reason for silence a chdir call without return target?
-                ctx.violation("cwe243 spurious-warning", case_json(case), detail(info()))
+                // class: is the only reason for the demanded silence a chdir call without return target?
+                let only_noreturn = !e.both && e.strict.iter().all(|s| matches!(flow.case.funs[e.f][*s], T::Call(_, None)));
+                let class = if only_noreturn { "cwe243 spurious-warning (every reachable chdir call lacks a return target)" } else { "cwe243 spurious-warning" };
+                ctx.violation(class, case_json(case), detail(info()))
             }
             (_, n) if n > 1 => ctx.violation("cwe243 duplicate-warning", case_json(case), detail(info())),
             _ => (),
@@ -228,7 +225,15 @@ fn run_case(ctx: &Ctx, case: &Case) {
         ctx.violation(format!("normalization panic {}", panic_site(&p)), case_json(case), json!({"panic": p, "program": render(&raw)}));
         return;
     }
-    let rendered = render(&project);
+    let cfg = match catch(|| get_program_cfg(&project.program)) {
+        Ok(g) => g,
+        Err(p) => {
+            ctx.violation(format!("cfg construction panic {}", panic_site(&p)), case_json(case), json!({"panic": p, "program": render(&project)}));
+            return;
+        }
+    };
+    let binary: Vec<u8> = Vec::new();
+    let results = AnalysisResults::new(&binary, &cfg, &project);
     let flow = Flow::new(case);
     let mut outcome: Vec<(usize, usize)> = Vec::new();
     let mut interesting = false;
@@ -236,8 +241,8 @@ fn run_case(ctx: &Ctx, case: &Case) {
     if case.chdir_imported {
         for pairs in PAIR_CONFIGS {
             let config = json!({"pairs": pairs.iter().map(|(a, b)| vec![*a, *b]).collect::<Vec<_>>()});
-            let got = run_check(cwe_367::CWE_MODULE.run, &project, &config);
-            let o = judge_toctou(ctx, case, &flow, &rendered, pairs, got);
+            let got = run_check(cwe_367::CWE_MODULE.run, &results, &config);
+            let o = judge_toctou(ctx, case, &flow, &project, pairs, got);
             interesting |= o.1 > 0;
             outcome.push(o);
             ctx.add_transitions(1);
@@ -245,9 +250,9 @@ fn run_case(ctx: &Ctx, case: &Case) {
     }
     for privs in PRIV_CONFIGS {
         let config = json!({"priviledge_dropping_functions": privs, "pairs": []});
-        let got = run_check(cwe_243::CWE_MODULE.run, &project, &config);
+        let got = run_check(cwe_243::CWE_MODULE.run, &results, &config);
         let panicked = got.is_err();
-        let o = judge_chroot(ctx, case, &flow, &rendered, privs, got);
+        let o = judge_chroot(ctx, case, &flow, &project, privs, got);
         interesting |= case.funs.iter().flatten().any(|t| matches!(t, T::Call(Callee::Chroot, _)));
         outcome.push(if panicked { (usize::MAX, o.1) } else { o });
         ctx.add_transitions(1);
